@@ -70,6 +70,9 @@ KERNELS = [
     dict(lean="render_tilted_plane_sky", file="priors.py", func="render_tilted_plane_sky"),
     dict(lean="tilted_plane_sky_sample", file="priors.py", func="sample", cls="TiltedPlaneSkyPrior", drop=["self"], sampled=True),
     dict(lean="restrict_func", file="multiband.py", func="restrict_func", cls="FitMultiBandPoly", drop=["self"]),
+    # two local variables of a method: how the hybrid renderer broadens the components it draws in real space
+    dict(lean="hybrid_broaden", file="rendering.py", func="render_sersic_hybrid", cls="HybridRenderer", drop=["self"],
+         value="locals", targets=["sigmas_obs", "q_obs"]),
     dict(lean="cash_loss_factor", file="loss.py", func="cash_loss", value="factor", drop=["suffix", "mask", "rms"]),
     dict(lean="pseudo_huber_loss_factor", file="loss.py", func="pseudo_huber_loss", value="factor",
          drop=["suffix", "mask"]),
@@ -485,6 +488,35 @@ def translate_kernel(spec, tree, src):
     reduce = None
     sampled = []
     stmts = body_statements(fn)
+    if spec.get("value") == "locals":
+        # the values of named local variables: assignments are translated in order until every target is bound; results of
+        # calls that are not formulas (tuple-unpacked method calls) and `self.<attr>` become scalar parameters
+        tr.self_attrs = []
+        want = list(spec["targets"])
+        for s in stmts:
+            if all(t in tr.scope for t in want):
+                break
+            if not (isinstance(s, ast.Assign) and len(s.targets) == 1):
+                raise Miss(f"statement {type(s).__name__} at line {s.lineno} before the targets are bound")
+            tgt, val = s.targets[0], s.value
+            if isinstance(tgt, ast.Tuple) and isinstance(val, ast.Call) and all(isinstance(x, ast.Name) for x in tgt.elts):
+                for x in tgt.elts:
+                    if x.id in want:
+                        raise Miss(f"target {x.id} is the result of a call")
+                    sampled.append(x.id)
+                    tr.scope[x.id] = (lean_ident(x.id), "re")
+                continue
+            tr.assign(tgt, val)
+        if not all(t in tr.scope for t in want):
+            raise Miss(f"targets {[t for t in want if t not in tr.scope]} are never assigned")
+        allp = params + sampled + [a for a in tr.self_attrs]
+        lines = [f"/-- translated from pysersic/{spec['file']} `{spec['func']}`: the local variables {', '.join(want)} (per component) -/",
+                 "def " + spec['lean'] + " " + " ".join(f"({lean_ident(p)} : α)" for p in allp) + " : " + " × ".join(["α"] * len(want)) + " :="]
+        for n, v in tr.lets:
+            lines.append(f"  let {n} := {v.text}")
+        lines.append("  (" + ", ".join(tr.scope[t][0] for t in want) + ")")
+        return dict(text="\n".join(lines), params=allp, inlined=tr.inlined, complex=False, complex_params=[], reduce="none", line=fn.lineno,
+                    tuple=len(want))
     for i, s in enumerate(stmts):
         if value is not None:
             # after the value: only `return <name bound to it>` is allowed
@@ -1028,7 +1060,7 @@ def emit(ks):
                 args.append(f"a[{i}]!")
                 i += 1
         call = f"{spec['lean']} " + " ".join(args)
-        res = f"let z := {call}; [z.re, z.im]" if k["complex"] else f"[{call}]"
+        res = f"let z := {call}; [z.re, z.im]" if k["complex"] else (f"let z := {call}; [z.1, z.2]" if k.get("tuple") == 2 else f"[{call}]")
         parts.append(f"  | \"{spec['lean']}\" => if a.size = {i} then some ({res}) else none\n")
     parts.append("  | _ => none\n\n")
     parts.append("/-- the translated prior programs at `Float`, by name: switch string, scalar arguments in the order of `params` -/\n")
